@@ -182,6 +182,26 @@ func setup() error {
 	if err := makeTLSPair(filepath.Join(scratch, "tls")); err != nil {
 		return err
 	}
+	// Relative paths: sections loaded on their own get the relative base
+	// directory "conf" (what a daemon started with `-c conf` hands them),
+	// sections loaded through a Manager from bytes get "."; the process
+	// works from the scratch directory and the same TLS pair sits under
+	// both, so that "tls/cert.pem" is a well-formed value in either mode.
+	if err := os.MkdirAll(filepath.Join(scratch, "conf", "tls"), 0o700); err != nil {
+		return err
+	}
+	for _, f := range []string{"cert.pem", "key.pem"} {
+		b, err := os.ReadFile(filepath.Join(scratch, "tls", f))
+		if err != nil {
+			return err
+		}
+		if err := os.WriteFile(filepath.Join(scratch, "conf", "tls", f), b, 0o600); err != nil {
+			return err
+		}
+	}
+	if err := os.Chdir(scratch); err != nil {
+		return err
+	}
 	for _, s := range sections {
 		if err := s.init(); err != nil {
 			return err
